@@ -76,7 +76,7 @@ fn c07_pairs_iterable_kinds() {
 
 // (ii) strings: bytes in order, keyed by index. BOUNDED: length <= 3 (one harness per length).
 fn str_pairs_contract(n: usize) {
-    let bytes: [u8; MAXLEN] = kani::any();
+    let bytes: [u8; MAXLEN] = [kani::any(), kani::any(), kani::any()];
     let mut s: Vec<u8> = Vec::with_capacity(MAXLEN);
     let mut i = 0;
     while i < n {
@@ -135,7 +135,7 @@ str_pairs_harness!(c07_pairs_str_len3, 3);
 
 // (iii) lists: elements by index; the result is a snapshot. BOUNDED: length <= 3, elements Int.
 fn list_pairs_contract(n: usize) {
-    let e: [i64; MAXLEN] = kani::any();
+    let e: [i64; MAXLEN] = [kani::any(), kani::any(), kani::any()];
     let extra: i64 = kani::any();
     let mut items: Vec<SourcedValue> = Vec::with_capacity(MAXLEN + 1);
     let mut i = 0;
